@@ -13,7 +13,7 @@
     drop_nested_unbalanced fragments_looked_up_not_extracted nested_directives_raise
     default_cfg_include_attrs i18n_directives_sort_first contexted_table
     lookups_subset_extract_partial choose_identity msg_lookup_extracted identity_transparent_msg
-    choose_lookup_extracted choose_outer_text_not_looked_up
+    choose_lookup_extracted choose_outer_text_not_looked_up msg_lookup_extracted_elem
 -/
 import Genshi.Lemmas.I18nTree
 import Genshi.Lemmas.I18nStarts
@@ -200,6 +200,22 @@ example : msgId [] (trList Cfg.default ⟨fun _ _ s => s ++ ['!']⟩ [] false tr
       [.start ⟨[], ['p']⟩ [(⟨[], ['t','i','t','l','e']⟩, .str ['T'])], .text ['H','i',' '],
        .start ⟨[], ['b']⟩ [], .text ['x'], .end_ ⟨[], ['b']⟩, .end_ ⟨[], ['p']⟩]) =
     .ok (some ['H','i',' ','[','1',':','x',']']) := by decide +kernel
+
+/-- the same for the element form `<i18n:msg params="ps">first … last</i18n:msg>` whose content
+    neither starts with a START nor ends with an END event (else: finding
+    C19-msg-element-first-child) and holds no nested directive. -/
+theorem msg_lookup_extracted_elem (cfg : Cfg) (cat : Catalog) (ctx : Ctx) (ta : Bool) (skip : Nat)
+    (ps : List Str) (st : Bool) (cs xs : List Str) (first last : TEvent) (mid : List TEvent)
+    (hf : first.isStart = false) (hl : last.isEnd = false)
+    (hns : noSubList (first :: (mid ++ [last])) = true) (id : Str)
+    (h : msgId ps (trList cfg cat ctx false ta skip (first :: (mid ++ [last]))) = .ok (some id)) :
+    ∃ ms, msgExtract cfg ps st cs xs (first :: (mid ++ [last])) = .ok ms ∧ id ∈ idsOf ms :=
+  Genshi.I18n.msg_lookup_extracted_elem cfg cat ctx ta skip ps st cs xs first last mid hf hl hns id h
+
+example : msgId [['n']] (trList Cfg.default ⟨fun _ _ s => s ++ ['!']⟩ [] false true 0
+      [.text ['H','i',' '], .start ⟨[], ['b']⟩ [(⟨[], ['t','i','t','l','e']⟩, .str ['T'])], .text ['x'], .end_ ⟨[], ['b']⟩,
+       .text [' '], .expr 0 []]) =
+    .ok (some ['H','i',' ','[','1',':','x',']',' ','%','(','n',')','s']) := by decide +kernel
 
 /-- **lookups_subset_extract, plural choice.**  For
     `<t i18n:choose="n; ps"> pre <ts i18n:singular="">cS</ts> mid <tp i18n:plural="">cP</tp> post </t>`
